@@ -1010,7 +1010,64 @@ def _check(item, tier):
                       'reference': describe_ref(classify(ref0, e)[1], vals_eff), 'implementation': describe(lookup(table, e)),
                       'note': 'the tuple is an element of the outermost domain AND a field-wise key; the element wins'})
     r.count('evaluations', len(progs))
+    if n >= 2:
+        shared_domain_leg(r, item, doms, progs, tier)
     return r
+
+
+def shared_domain_leg(r, item, doms, progs, tier):
+    """Two tables over the SAME outer domain object (as every table derived from one MDP shares mdp.state_list) whose inner
+    domains are ordered differently: the same programs run on both, alternating, each against its own reference -- what one
+    table resolved must not leak into the other."""
+    from msdm.core.table import Table, TableIndex, domaintuple
+    from msdm.core.mdp.tables import StateActionTable
+    from msdm.core.mdp.tabularpolicy import TabularPolicy
+    n = len(doms)
+    doms_b = (doms[0],) + tuple(tuple(d[1:]) + tuple(d[:1]) for d in doms[1:])
+    if doms_b == doms:
+        return
+    labels = ['Table'] + (['StateActionTable', 'TabularPolicy'] if n == 2 else [])
+    refs_ab = (full_ref(doms), full_ref(doms_b))
+    cache = ({}, {})
+    for label in labels:
+        shared = domaintuple(doms[0])
+        pair = []
+        for dd in (doms, doms_b):
+            vals = cell_values(dd, label in PROB)
+            shape = tuple(len(d) for d in dd)
+            try:
+                if label == 'Table':
+                    t = Table(data=vals.astype(int).reshape(shape),
+                              table_index=TableIndex(field_names=tuple(f'f{i}' for i in range(n)), field_domains=(shared,) + dd[1:]))
+                elif label == 'StateActionTable':
+                    t = StateActionTable.from_state_action_lists(state_list=shared, action_list=dd[1], data=vals.reshape(shape).copy())
+                else:
+                    t = TabularPolicy.from_state_action_lists(state_list=shared, action_list=dd[1], data=vals.reshape(shape).copy())
+            except Exception as e:
+                r.violation('construction_failed', {'class': label + ' (shared outer domain)', 'domains': [repr(d) for d in dd],
+                                                    'error': repr(e)[:200]}, item)
+                return
+            pair.append((t, vals))
+        r.count('states', 2)
+        r.count('tables_sharing_outer_domain', 2)
+        state = {'bad': 0, 'n': 0, 'out': set(), 'rows': set()}
+        for pi, (tag, steps, core) in enumerate(progs):
+            if not core and tier == 'quick' and pi % 3:
+                continue
+            for w in (0, 1) if pi % 2 == 0 else (1, 0):
+                refs = cache[w].get(pi)
+                if refs is None:
+                    refs = []
+                    cur = refs_ab[w]
+                    for key in steps:
+                        c = classify(cur, key)
+                        refs.append(c)
+                        if c[0] != VAL or not isinstance(c[1], R):
+                            break
+                        cur = c[1]
+                    cache[w][pi] = refs
+                run_program(r, item, label + ' (shared outer domain, table %s)' % 'AB'[w], pair[w][0], refs_ab[w], pair[w][1], tag,
+                            steps[:len(refs)], refs, state)
 
 
 def replay(rec):
